@@ -4,8 +4,10 @@ import (
 	"bytes"
 	"errors"
 	"fmt"
+	"net"
 	"os"
 	"strings"
+	"syscall"
 	"testing"
 
 	"github.com/pascaldekloe/mqtt"
@@ -127,6 +129,12 @@ func TestC14aErrorClasses(t *testing.T) {
 		slotsBefore := mqtt.VerifUnorderedSlots(h.Client)
 		savesBefore := h.Store.NOps()
 
+		// the connection reports an error when it is closed (a broker which hangs
+		// up the moment it has read DISCONNECT makes a TLS close_notify fail)
+		if c != nil && state == "online" && rapid.IntRange(0, 3).Draw(rt, "closeReportsAnError") == 0 {
+			h.WithLock(func() { c.CloseErr = &net.OpError{Op: "close", Net: "sim", Err: syscall.EPIPE} })
+			h.label("connection-close-reports-an-error")
+		}
 		// an earlier persisted publish of the same level was refused (its Save
 		// failed): that is over and done with, the next one is an ordinary publish
 		priorRefused := false
